@@ -49,6 +49,16 @@ def gen(rng, tier, k):
         cfg['inv_update_steps'] = 2; cfg['factor_update_steps'] = 1
         if k % 8 == 3:
             cfg['compute_method'] = 'eigen'; cfg['compute_eigenvalue_outer_product'] = True; cfg['colocate_factors'] = True
+    if k % 8 == 7:
+        # singular factors: no identity prior (the running average starts with weight 0, as exp_decay_factor_averaging does) and fewer
+        # rows than features - the decomposition returns eigenvalues around zero of either sign; eigenvalues kept separate and broadcast
+        # to several gradient workers: every rank must precondition with the same (clamped) values
+        cfg['W'] = 2; cfg['k'] = 2; cfg['grad_worker_fraction'] = 1.0
+        cfg['model'], cfg['in_shape'] = kfacgen.MODELS[1]; cfg['batch'] = 1
+        cfg['compute_method'] = 'eigen'; cfg['compute_eigenvalue_outer_product'] = False
+        cfg['factor_decay'] = ['table', [0.0, 0.0, 0.5, 0.5, 0.5, 0.5, 0.5, 0.5]]
+        cfg['factor_update_steps'] = 1; cfg['inv_update_steps'] = 1; cfg['damping'] = 0.001
+        exact = False; cfg['singular'] = True
     cfg['exact'] = exact
     nsteps = rng.randint(2, 4 if tier == 'quick' else 5)
     hist = [['train', cfg['accumulation_steps']] for _ in range(nsteps)]
@@ -100,7 +110,7 @@ def run(tier, seed, rng):
                 # arithmetic (and the memory layout of broadcast eigenvectors differs from locally computed ones),
                 # so the comparison with the single-process run is tolerance-based: 1e-9 in float64, 5e-3 in float32
                 # (the implementation always decomposes / inverts in float32, and symmetric communication mirrors the upper triangle)
-                tolb = 1e-4
+                tolb = 1e-4 if not cfg.get('singular') else 5e-2      # singular factors, damping 1e-3: float32 noise is amplified ~1e3-fold; ranks must still agree bit for bit
                 worst_single = max(worst_single, err / tolb)
                 if err > tolb:
                     probs.append(f'step {si} layer {li}: multi-rank gradient differs from single-process K-FAC on the union batch (rel {err:.2e} > {tolb:.0e})')
@@ -114,7 +124,7 @@ def run(tier, seed, rng):
                         if fe > 1e-5:
                             probs.append(f'step {si} layer {li} rank {r}: factors differ from single-process K-FAC on the union batch (rel {fe:.2e})')
         # extracted model on the single-process factors and the averaged gradient (refresh every step only)
-        if cfg['inv_update_steps'] == 1 and cfg['factor_update_steps'] == 1 and cfg['kl_clip'] is None and cfg.get('inv_dtype') != 'bfloat16':
+        if cfg['inv_update_steps'] == 1 and cfg['factor_update_steps'] == 1 and cfg['kl_clip'] is None and cfg.get('inv_dtype') != 'bfloat16' and not cfg.get('singular'):
             cm = {'method': cfg['compute_method'], 'prediv': cfg['compute_eigenvalue_outer_product']}
             for si in range(len(hist)):
                 D = ref_pre[si][2]
